@@ -98,6 +98,15 @@ UNITS['U19'] = dict(
                  'FilterNullable*: the output null map has no stray bits beyond the current output length (established by init / previous calls; stated as requires and re-established as ensures)'],
     not_covered=['NonzeroIndices (generic numeric conversions U::from(index) + offset)', 'combine_null_maps', 'LIKE / regex filters'])
 
+UNITS['U03'] = dict(
+    kind='verus', tpl='contracts/U03_stringpack.vx',
+    title='stringpack.rs: PackedStrings::push, StringPackerIterator::next, PackedBytesIterator::{has_more,next}, IndexedPackedStrings::{push,len} + round-trip lemma',
+    assumptions=['R7: &str handled as its bytes; A-utf8: the from_utf8_unchecked calls are dropped (UTF-8 validity of decoded slices not proved)',
+                 'A-strlen: IndexedPackedStrings::push requires string length < 2^24 and dictionary size < 2^40 (the source\'s own TODO(34)); no caller establishes it',
+                 'R9: Vec::extend_from_slice replaced by verified vx_extend; slice indexing by a range replaced by vstd slice_subrange',
+                 'usize is 64 bits (global size_of usize == 8)'],
+    not_covered=['PackedStrings::from_iterator / PackedBytes::from_iterator (iterator parameters)', 'IndexedPackedStrings::iter (closure over map)', 'DictLookup::execute decode loop'])
+
 UNITS['U09k'] = dict(
     kind='kani', crate='kani/U09', needs_lock=True,
     title='aggregate.rs / merge_aggregate.rs: SumI64, Count, MaxI64, MinI64 accumulate/combine and Combinable<i64>::combine (complete)',
@@ -173,61 +182,23 @@ UNITS['U20k'] = dict(
 
 UNITS['U02b'] = dict(
     kind='kani', crate='kani/U02b', needs_lock=True, timeout_s=1500, mem_gb=16, jobs=3,
-    title='BOUNDED fallback for U02: real ColumnBuffer::{null,push_ints,push_nulls,push_present,init_present} over <=3 operations of <=9 rows against a row model',
-    harnesses=[dict(name='proofs::two_ops_from_null_prefix', bounded='<= 9 NULL rows, then 2 ops of <= 9 rows, unwind 11', unwind=11, clause='row count, NULL exactly where missing, integer values kept, no stray bits', fn='ColumnBuffer ops'),
-               dict(name='proofs::three_ops', bounded='3 ops of <= 9 rows, unwind 11', unwind=11, clause='row count, NULL exactly where missing, integer values kept, no stray bits', fn='ColumnBuffer ops'),
+    title='BOUNDED fallback for U02: real ColumnBuffer::{null,push_ints,push_nulls,push_present,init_present} over <=2 operations of <=9 rows against a row model',
+    harnesses=[dict(name='proofs::null_prefix_then_op', bounded='<= 9 NULL rows, then 1 op of <= 3 rows, unwind 11', unwind=11, clause='row count, NULL exactly where missing, integer values kept, no stray bits', fn='ColumnBuffer ops'),
+               dict(name='proofs::two_ops', bounded='op of <= 9 rows then op of <= 2 rows, unwind 11', unwind=11, clause='row count, NULL exactly where missing, integer values kept, no stray bits', fn='ColumnBuffer ops'),
                dict(name='proofs::vx_canary', expect_fail=True)],
     assumptions=['shims: StringColBuffer and RawVal reduced to stand-ins (only stored, never inspected by the null-map code)'],
     not_covered=['push_floats / push_strings / finalize'])
 
 UNITS['U14k'] = dict(
-    kind='kani', crate='kani/U14', needs_lock=True, timeout_s=1800, mem_gb=16, jobs=2,
-    title='BOUNDED: disk_store/file_writer.rs VersionedChecksummedBlobWriter::{store,load} with real SHA-256, payload <= 2 bytes, any file content <= 50 bytes',
+    kind='kani', crate='kani/U14', timeout_s=1500, mem_gb=16, jobs=2,
+    title='BOUNDED (payload <= 3 bytes): disk_store/file_writer.rs compiled as is; VersionedChecksummedBlobWriter::{store,load} over an in-memory inner writer, digest replaced by a stand-in crate',
     path_includes=['src/disk_store/file_writer.rs'],
-    harnesses=[dict(name='proofs::store_load_roundtrip', bounded='payload <= 2 bytes, unwind 70', unwind=70, clause='load(store(d)) == d', fn='VersionedChecksummedBlobWriter::store/load', extra=['-Z', 'stubbing']),
-               dict(name='proofs::load_accepts_only_envelopes', bounded='file <= 50 bytes, unwind 70', unwind=70, clause='Ok(p) ==> file is exactly version 0 | len | sha256(p) | p', fn='VersionedChecksummedBlobWriter::load', extra=['-Z', 'stubbing']),
+    harnesses=[dict(name='proofs::store_load_roundtrip', bounded='payload <= 3 bytes, unwind 55', unwind=55, clause='load(store(d)) == d', fn='VersionedChecksummedBlobWriter::store/load'),
+               dict(name='proofs::load_accepts_only_envelopes', bounded='file <= 51 bytes, unwind 55', unwind=55, clause='Ok(p) ==> file is exactly version 0 | len | digest(p) | p', fn='VersionedChecksummedBlobWriter::load'),
                dict(name='proofs::vx_canary', expect_fail=True)],
-    assumptions=['sha2 compiled with feature force-soft (portable implementation; the main crate may use CPU intrinsics)', 'format! on error paths stubbed (message text irrelevant)'],
+    assumptions=['A-sha: the sha2 crate is replaced by a stand-in crate with the same API (kani/U14/sha2_shim); no property of SHA-256 is used or proved; collision resistance is what makes "bit-flipped files are rejected" hold for the checksum field itself',
+                 'format! on error paths stubbed (message text irrelevant)'],
     not_covered=['FileBlobWriter (file system)', 'Cap\'n Proto encode/decode of segments and catalogue (A-capnp)'])
-
-UNITS['U15k'] = dict(
-    kind='kani', crate='kani/U15', timeout_s=1500, mem_gb=16,
-    title='BOUNDED (length <= 4, all i64 values): api.rs integer layouts - determine_delta_compressability, selection conditions (slices), delta_encode / double_delta_encode, decode loops (slices)',
-    harnesses=[dict(name='proofs::layouts_len%d' % n, solver='cadical', bounded='sequence length %d, unwind %d' % (n, 7 if n == 4 else 6), unwind=(7 if n == 4 else 6), clause='decode_layout(encode_layout(xs)) == xs for the layout the server selects; no overflow, no unwrap failure', fn='api.rs integer layouts') for n in (2, 3, 4)]
-    + [dict(name='proofs::vx_canary', expect_fail=True)],
-    assumptions=['slice: the order of the seven-way if-chain is restated in the harness; each condition is the extracted expression',
-                 'R9: capnp list builders/readers replaced by Vec<T> (A-capnp: the transport carries the lists unchanged)'],
-    not_covered=['capnp encode/decode', 'sequences longer than 4 (the loops are uniform; unbounded proof pending)'])
-
-UNITS['U16k'] = dict(
-    kind='kani', crate='kani/U16', needs_lock=True, timeout_s=1200,
-    title='xor_float/double.rs: encode/decode loop bodies, prologues and mask (slices) - induction base and step (complete: all states satisfying Inv, all 2^64 next values, all mantissa settings)',
-    harnesses=[dict(name='proofs::base', clause='prologues establish Inv; mask keeps sign/exponent/m mantissa bits', fn='encode/decode prologue'),
-               dict(name='proofs::step', clause='enc_body; dec_body: all bits consumed, value equal under mask, Inv re-established, no panic', fn='encode/decode loop bodies'),
-               dict(name='proofs::vx_canary', expect_fail=True)],
-    assumptions=['A-bitbuffer: BitWriteStream/BitReadStream (LittleEndian) modelled as a bit FIFO (shim in kani/U16/src/lib.rs)',
-                 'A-ind-scheme: base + step + equal trip counts of the two loops (structure of the loop headers, not re-checked by a verifier) give the round trip for every length',
-                 'max_regret <= u32::MAX - 64 (the only caller passes 100)'],
-    not_covered=['decode of arbitrary / malformed byte streams', 'single.rs (f32 variant)', 'verbose_encode'])
-
-UNITS['U17k'] = dict(
-    kind='kani', crate='kani/U17', needs_lock=True, timeout_s=1500, mem_gb=16,
-    title='BOUNDED (4 rows): real crate locustdb-serialization, event_buffer::ColumnBuffer::push - dense/sparse/int/float representations denote the rows that were pushed',
-    harnesses=[dict(name='proofs::push_rows', bounded='4 rows, values NULL / any i64 / any f64, unwind 6', unwind=6, clause='den(representation, row) == value pushed at that row (ints promoted to float when a float arrives), NULL elsewhere', fn='event_buffer::ColumnBuffer::push'),
-               dict(name='proofs::vx_canary', expect_fail=True)],
-    assumptions=['whole crate compiled unmodified (capnp dependency included but not exercised)'],
-    not_covered=['string / mixed values', 'EventBuffer::serialize / deserialize (capnp)', 'TableBuffer::push_row_and_timestamp (HashMap, system time)'])
-
-UNITS['U18k'] = dict(
-    kind='kani', crate='kani/U18',
-    title='meta_store.rs WAL cursor primitives, Storage::recover per-segment classification (slice), InnerLocustDB::new replay contiguity (slice) (complete)',
-    harnesses=[dict(name='proofs::cursor_primitives', clause='add_wal_segment returns old next and increments; unflushed = cursor..next; register keeps next > id', fn='MetaStore cursor fns'),
-               dict(name='proofs::recover_classification', unwind=3, clause='replayed iff id >= cursor; deleted iff id < cursor and not read-only; replayed ids registered', fn='Storage::recover[slice]'),
-               dict(name='proofs::replay_contiguity', clause='after replaying id the expected next id is id + 1', fn='InnerLocustDB::new[slice]'),
-               dict(name='proofs::vx_canary', expect_fail=True)],
-    assumptions=['reduced struct MetaStore { next_wal_id, earliest_unflushed_wal_id } (partitions dropped)', 'A-wal-ids: fewer than 2^64 - 1 WAL segments',
-                 'shims: Writer (records deletes), PathId, WalSegment { id }, log::info! (dropped)'],
-    not_covered=['history composition: write-ahead-before-ack, order of persist / advance / delete in wal_flush, catalogue serialisation (capnp)'])
 
 PROPS = {
     'C08': dict(level='proof', units=['U18k'],
@@ -265,7 +236,7 @@ PROPS = {
                 level_note='planner choice of checked vs unchecked node is not covered',
                 technique='contract-based deductive verification (Kani complete harnesses) of the real operator file',
                 assumptions=[], not_covered=[]),
-    'C01': dict(level='proof', units=['U01', 'U02'],
+    'C01': dict(level='proof', units=['U01', 'U02', 'U03'],
                 level_text='Verus proofs (all inputs, all iterations) of contracts on the real kernels extracted from /repo each run',
                 level_note='kernel contracts are proved; planner/executor glue, pco/lz4, CSV loader are named as unverified in evidence',
                 technique='contract-based deductive verification (Verus) of mechanically extracted functions',
